@@ -23,19 +23,20 @@ class Inconclusive(Exception):
 
 
 class Interval:
-    __slots__ = ('lo', 'hi', 'los', 'his', 'nz')
+    __slots__ = ('lo', 'hi', 'los', 'his', 'nz', 'ne')
 
-    def __init__(self, lo=None, hi=None, los=False, his=False, nz=False):
+    def __init__(self, lo=None, hi=None, los=False, his=False, nz=False, ne=()):
         self.lo, self.hi, self.los, self.his, self.nz = lo, hi, los, his, nz
+        self.ne = tuple(ne)          # further single values known to be excluded (x != c with c != 0)
 
     def copy(self):
-        return Interval(self.lo, self.hi, self.los, self.his, self.nz)
+        return Interval(self.lo, self.hi, self.los, self.his, self.nz, self.ne)
 
     def empty(self):
         if self.lo is not None and self.hi is not None:
             if self.lo > self.hi:
                 return True
-            if self.lo == self.hi and (self.los or self.his or (self.nz and self.lo == 0)):
+            if self.lo == self.hi and (self.los or self.his or (self.nz and self.lo == 0) or self.lo in self.ne):
                 return True
         return False
 
@@ -158,6 +159,7 @@ class Interp:
                                 # A5: atom counts delivered by a successful CompoundParserSimple(.., &ca, ..) are positive
                                 # (every contribution is a non-zero subscript of digits, or a product of such: rules/c07.py)
                                 (re.compile(r'^\w+@\d+\.singleElements\[[^\]]*\]\.nAtoms$'), Interval(Fraction(0), None, True, False))]
+        self.keep_macros = False     # True: literals that come from a numeric macro stay symbolic (PI, RE2, ...)
         self.call_ranges = dict(call_ranges or {})    # function name -> Interval of everything it can return (supplied by the rule, from data)
         self.types = {}          # canonical symbol -> C type (for integer reasoning)
         self.var_types = {}
@@ -171,6 +173,12 @@ class Interp:
                     self.addr_taken.add(t['id'])
         self._tables = {}
         self._discovering = 0
+        # `x = c ? a : b`, `T x = c ? a : b` and `return c ? a : b` are executed as branches (path-sensitive), not as an
+        # opaque conditional value
+        if func.get('body') is not None and any(n.get('k') == 'ConditionalOperator' for n in walk(func['body'])):
+            func = dict(func)
+            func['body'] = lower_conditionals(func['body'])
+            self.func = func
         self._mono_found = {}
         self._compound_atoms_vars = set()
         for p in func.get('params', []):
@@ -455,6 +463,7 @@ class Interp:
         if y.hi is not None and (r.hi is None or y.hi < r.hi or (y.hi == r.hi and y.his)):
             r.hi, r.his = y.hi, y.his
         r.nz = x.nz or y.nz
+        r.ne = tuple(sorted(set(x.ne) | set(y.ne)))[:16]
         return r
 
     @staticmethod
@@ -591,12 +600,16 @@ class Interp:
                 return False
             if iv.nz and bound == 0:
                 return False
+            if bound in iv.ne:
+                return False
         elif op == '!=':
             if iv.lo == bound and iv.hi == bound and not iv.los and not iv.his:
                 return False
             if bound == 0:
                 iv.nz = True
             else:
+                if bound not in iv.ne and len(iv.ne) < 16:
+                    iv.ne = iv.ne + (bound,)
                 if iv.lo == bound and not iv.los:
                     if integer:
                         iv.lo = bound + 1
@@ -764,7 +777,7 @@ class Interp:
         if k in ('IntegerLiteral', 'FloatingLiteral', 'CharacterLiteral'):
             if k == 'CharacterLiteral':
                 return Rat.const(node['val'])
-            return Normalizer(self.prog, keep_macros=False).to_rat(node)
+            return Normalizer(self.prog, keep_macros=self.keep_macros).to_rat(node)
         if k == 'StringLiteral':
             return Rat.sym('"%s"' % node.get('val'))
         if k in ('CStyleCastExpr', 'CXXStaticCastExpr', 'CXXFunctionalCastExpr', 'CXXReinterpretCastExpr'):
@@ -1761,3 +1774,55 @@ def run_fragment(prog, func, stmt, **kw):
     f2['body'] = stmt if stmt.get('k') == 'CompoundStmt' else {'k': 'CompoundStmt', 'ln': stmt.get('ln'), 'col': stmt.get('col'), 'c': [stmt]}
     it = Interp(prog, f2, **kw)
     return it, it.run()
+
+
+def _strip_paren(n):
+    n = strip_casts(n)
+    while n.get('k') == 'ParenExpr' and n.get('c'):
+        n = strip_casts(n['c'][0])
+    return n
+
+
+def lower_conditionals(n):
+    """Statement-level conditional expressions become if/else statements (same evaluation order: the condition first,
+    then exactly one arm)."""
+    if isinstance(n, list):
+        return [lower_conditionals(x) for x in n]
+    if not isinstance(n, dict):
+        return n
+    out = {k: (lower_conditionals(v) if isinstance(v, (dict, list)) and k not in ('decls',) else v) for k, v in n.items()}
+    if out.get('k') == 'CompoundStmt':
+        new = []
+        for st in out.get('c', []):
+            new.extend(_lower_stmt(st))
+        out['c'] = new
+    return out
+
+
+def _lower_stmt(st):
+    k = st.get('k')
+    if k == 'DeclStmt' and len(st.get('decls', [])) >= 1 and any(
+            d.get('init') is not None and _strip_paren(d['init']).get('k') == 'ConditionalOperator' for d in st['decls']):
+        res = []
+        for d in st['decls']:
+            ini = _strip_paren(d['init']) if d.get('init') is not None else None
+            if ini is not None and ini.get('k') == 'ConditionalOperator' and not d.get('dims'):
+                d2 = {kk: vv for kk, vv in d.items() if kk != 'init'}
+                ref = {'k': 'DeclRefExpr', 'ln': d.get('ln'), 'col': d.get('col'), 'name': d['name'], 'id': d['id'], 'cls': d.get('cls', 'local'),
+                       'T': d.get('T'), 'Ti': d.get('T'), 'dT': d.get('T')}
+                res.append({'k': 'DeclStmt', 'ln': st.get('ln'), 'col': st.get('col'), 'decls': [d2]})
+                res.append({'k': 'IfStmt', 'ln': ini.get('ln'), 'col': ini.get('col'), 'cond': ini['c'][0],
+                            'then': {'k': 'BinaryOperator', 'op': '=', 'ln': ini.get('ln'), 'T': d.get('T'), 'c': [ref, ini['c'][1]]},
+                            'else': {'k': 'BinaryOperator', 'op': '=', 'ln': ini.get('ln'), 'T': d.get('T'), 'c': [ref, ini['c'][2]]}})
+            else:
+                res.append({'k': 'DeclStmt', 'ln': st.get('ln'), 'col': st.get('col'), 'decls': [d]})
+        return res
+    if k == 'ReturnStmt' and st.get('c') and _strip_paren(st['c'][0]).get('k') == 'ConditionalOperator':
+        c = _strip_paren(st['c'][0])
+        return [{'k': 'IfStmt', 'ln': st.get('ln'), 'col': st.get('col'), 'cond': c['c'][0],
+                 'then': dict(st, c=[c['c'][1]]), 'else': dict(st, c=[c['c'][2]])}]
+    if k == 'BinaryOperator' and st.get('op') == '=' and _strip_paren(st['c'][1]).get('k') == 'ConditionalOperator':
+        c = _strip_paren(st['c'][1])
+        return [{'k': 'IfStmt', 'ln': st.get('ln'), 'col': st.get('col'), 'cond': c['c'][0],
+                 'then': dict(st, c=[st['c'][0], c['c'][1]]), 'else': dict(st, c=[st['c'][0], c['c'][2]])}]
+    return [st]
